@@ -12,7 +12,8 @@ must/should/must-not alike. The same documents mapped without nesting match when
 met by some element. Hits are always parent documents, each at most once, and DocCount, Total,
 match-all, deletes and updates count and affect parents together with all their nested elements."
 
-`Model/Nested.lean` is the statement as a Lean function (`eval nested q doc`).  `./check C20`
+`Model/Nested.lean` is the statement as a Lean function (`eval nested doc q context`), for any
+nesting depth (a document is its own object plus every array element at any depth).  `./check C20`
 compares real searches on scorch under the nested and the un-nested mapping (after several separate
 update / delete batches), DocCount and match-all with it.  Proved here: what the specification
 itself guarantees for every document and query.  Two clauses of the statement are known to fail on
@@ -25,70 +26,85 @@ namespace Bleve.Nested
 theorem search_nodup (nested : Bool) (q : Q) (corpus : List Doc) (h : (corpus.map (·.id)).Nodup) :
     (search nested q corpus).Nodup := by
   unfold search
-  exact List.Nodup.sublist (List.Sublist.map _ List.filter_sublist) h
+  exact (List.Sublist.map _ List.filter_sublist).nodup h
 
 theorem search_sub (nested : Bool) (q : Q) (corpus : List Doc) :
-    ∀ i ∈ search nested q corpus, i ∈ corpus.map (·.id) := by
+    ∀ i ∈ search nested q corpus, ∃ d ∈ corpus, d.id = i ∧ docMatches nested q d = true := by
   intro i hi
-  unfold search at hi
-  exact (List.Sublist.map _ List.filter_sublist).subset hi
+  simp only [search, List.mem_map, List.mem_filter] at hi
+  obtain ⟨d, ⟨hd, hm⟩, rfl⟩ := hi
+  exact ⟨d, hd, rfl, hm⟩
 
-/-- without nesting a conjunction is met clause by clause -/
-theorem unnested_conj (qs : List Q) (d : Doc) : eval false (.conj qs) d = evalAll false qs d := by
+/-- without nesting a conjunction is its clauses, each on its own -/
+theorem unnested_conj (d : Doc) (qs : List Q) (c : Node) :
+    eval false d (.conj qs) c = evalAll false d qs c := by
   simp [eval]
 
-/-- **Object boundaries.** Under the nested mapping a conjunction whose leaves all address array `a`
-    matches only if one single element of `a` satisfies every conjunct. -/
-theorem nested_conj_witness (qs : List Q) (a : Name) (d : Doc) (hs : singleArray qs = some a)
-    (h : eval true (.conj qs) d = true) : ∃ o ∈ d.elems a, allElem qs o = true := by
-  simp only [eval, hs, if_true] at h
-  rw [List.any_eq_true] at h
-  exact h
+/-- **Same element.**  Under the nested mapping a conjunction whose leaves share an array path deeper
+than the context holds exactly when ONE object at that path, inside the context, satisfies every
+clause. -/
+theorem nested_conj_iff (d : Doc) (qs : List Q) (c : Node) (h : c.apath.length < (joinPath qs).length) :
+    eval true d (.conj qs) c = true ↔
+      ∃ m ∈ d.nodes, m.apath = joinPath qs ∧ below c m = true ∧ evalAll true d qs m = true := by
+  simp only [eval, Bool.true_and, decide_eq_true_eq, h, if_true, List.any_eq_true, Bool.and_eq_true, beq_iff_eq]
+  constructor
+  · rintro ⟨m, hm, ⟨h1, h2⟩, h3⟩; exact ⟨m, hm, h1, h2, h3⟩
+  · rintro ⟨m, hm, h1, h2, h3⟩; exact ⟨m, hm, ⟨h1, h2⟩, h3⟩
 
-/-- ... and conversely one element satisfying all conjuncts is enough -/
-theorem nested_conj_of_witness (qs : List Q) (a : Name) (d : Doc) (hs : singleArray qs = some a)
-    (o : Obj) (ho : o ∈ d.elems a) (hall : allElem qs o = true) : eval true (.conj qs) d = true := by
-  simp only [eval, hs, if_true]
-  rw [List.any_eq_true]
-  exact ⟨o, ho, hall⟩
+/-- clauses with no array in common (different arrays, or an array and a top-level field) are
+combined per enclosing object: at the top, per parent document -/
+theorem nested_conj_per_parent (d : Doc) (qs : List Q) (h : joinPath qs = []) :
+    eval true d (.conj qs) root = evalAll true d qs root := by
+  simp [eval, h, root]
 
-/-- a list of term leaves over fields of array `a` -/
-def leaves (a : Name) (fts : List (Name × Term)) : List Q := fts.map (fun p => Q.term a p.1 p.2)
+/-- everything lies below the whole document -/
+theorem below_root (n : Node) : below root n = true := by simp [below, root]
 
-theorem allElem_leaves (a : Name) (fts : List (Name × Term)) (o : Obj) :
-    allElem (leaves a fts) o = fts.all (fun p => o.has p.1 p.2) := by
+/-- a leaf that holds inside some object holds for the document -/
+theorem term_mono (nested : Bool) (d : Doc) (p : Path) (f : Name) (t : Term) (c : Node)
+    (h : eval nested d (.term p f t) c = true) : eval nested d (.term p f t) root = true := by
+  simp only [eval, List.any_eq_true, Bool.and_eq_true, beq_iff_eq] at h ⊢
+  obtain ⟨n, hn, ⟨h1, _⟩, h3⟩ := h
+  exact ⟨n, hn, ⟨h1, below_root n⟩, h3⟩
+
+def leaves (fts : List (Path × Name × Term)) : List Q := fts.map (fun p => Q.term p.1 p.2.1 p.2.2)
+
+theorem leaves_mono (nested : Bool) (d : Doc) (fts : List (Path × Name × Term)) (c : Node)
+    (h : evalAll nested d (leaves fts) c = true) : evalAll false d (leaves fts) root = true := by
   induction fts with
   | nil => rfl
   | cons p rest ih =>
-    have ih' : allElem (List.map (fun p => Q.term a p.fst p.snd) rest) o = rest.all (fun p => o.has p.1 p.2) := ih
-    simp [leaves, allElem, evalElem, ih']
+    simp only [leaves, List.map_cons, evalAll, Bool.and_eq_true] at h ⊢
+    refine ⟨?_, ih h.2⟩
+    have := term_mono nested d p.1 p.2.1 p.2.2 c h.1
+    simpa [eval] using this
 
-theorem evalAll_leaves_unnested (a : Name) (ha : a.isEmpty = false) (fts : List (Name × Term)) (d : Doc) :
-    evalAll false (leaves a fts) d = fts.all (fun p => (d.elems a).any (fun o => o.has p.1 p.2)) := by
-  induction fts with
-  | nil => rfl
-  | cons p rest ih =>
-    simp only [leaves, List.map_cons, evalAll, eval, ha, Bool.false_eq_true, if_false, List.all_cons]
-    rw [← ih]; rfl
+/-- **Nested is stricter than un-nested**: a conjunction of term leaves (over any arrays, at any
+depth) that matches a document under the nested mapping matches it without nesting too. -/
+theorem nested_implies_unnested (d : Doc) (fts : List (Path × Name × Term))
+    (h : docMatches true (.conj (leaves fts)) d = true) : docMatches false (.conj (leaves fts)) d = true := by
+  unfold docMatches at h ⊢
+  rw [unnested_conj]
+  simp only [eval] at h
+  split at h
+  · simp only [List.any_eq_true, Bool.and_eq_true] at h
+    obtain ⟨m, _, _, hm⟩ := h
+    exact leaves_mono true d fts m hm
+  · exact leaves_mono true d fts root h
 
-/-- **Nested is stricter than un-nested**: a same-element match is in particular a match clause by
-    clause (so the un-nested mapping returns every document the nested one returns, for
-    conjunctions of term leaves over one array). -/
-theorem nested_implies_unnested (a : Name) (ha : a.isEmpty = false) (fts : List (Name × Term)) (d : Doc)
-    (hs : singleArray (leaves a fts) = some a)
-    (h : eval true (.conj (leaves a fts)) d = true) : eval false (.conj (leaves a fts)) d = true := by
-  obtain ⟨o, ho, hall⟩ := nested_conj_witness _ a d hs h
-  rw [unnested_conj, evalAll_leaves_unnested a ha]
-  rw [allElem_leaves] at hall
-  rw [List.all_eq_true] at hall ⊢
-  intro p hp
-  rw [List.any_eq_true]
-  exact ⟨o, ho, hall p hp⟩
-
-/-- the two readings differ exactly when the witnesses sit in different elements -/
+/-- the two readings differ exactly when the witnesses sit in different elements; with two levels,
+the inner elements must also sit inside one and the same outer element -/
 example :
-    let d : Doc := ⟨[1], [], [([101], [[([110], [1]), ([111], [2])], [([110], [3]), ([111], [4])]])]⟩
-    let q : Q := .conj [.term [101] [110] [1], .term [101] [111] [4]]
-    eval true q d = false ∧ eval false q d = true := by decide
+    let d : Doc := ⟨[1], [⟨[], [], []⟩, ⟨[[101]], [0], [([110], [1]), ([111], [2])]⟩, ⟨[[101]], [1], [([110], [3]), ([111], [4])]⟩]⟩
+    let q : Q := .conj [.term [[101]] [110] [1], .term [[101]] [111] [4]]
+    docMatches true q d = false ∧ docMatches false q d = true := by decide
+
+example :
+    let d : Doc := ⟨[1], [⟨[], [], []⟩, ⟨[[101]], [0], [([110], [1])]⟩, ⟨[[101], [102]], [0, 0], [([120], [7])]⟩,
+      ⟨[[101]], [1], [([110], [3])]⟩, ⟨[[101], [102]], [1, 0], [([120], [8])]⟩]⟩
+    -- name 1 and tag 8 exist, but in different outer elements
+    docMatches true (.conj [.term [[101]] [110] [1], .term [[101], [102]] [120] [8]]) d = false ∧
+    docMatches true (.conj [.term [[101]] [110] [3], .term [[101], [102]] [120] [8]]) d = true ∧
+    docMatches true (.term [[101], [102]] [120] [7]) d = true := by decide
 
 end Bleve.Nested
